@@ -23,6 +23,8 @@
 #include <opm/input/eclipse/Schedule/UDQ/UDT.hpp>
 #include <opm/input/eclipse/Schedule/Well/NameOrder.hpp>
 #include <opm/input/eclipse/Schedule/Well/WellMatcher.hpp>
+#include <opm/input/eclipse/Schedule/Well/WListManager.hpp>
+#include <opm/common/utility/shmatch.hpp>
 #include <opm/input/eclipse/Schedule/MSW/SegmentMatcher.hpp>
 #include <opm/input/eclipse/EclipseState/Grid/RegionSetMatcher.hpp>
 
@@ -127,6 +129,8 @@ struct World {
     std::map<std::string, double> udqScalars;                          // FUA ...
     std::map<std::string, std::map<std::string, double>> udqWell;      // WUA -> well -> value
     std::map<std::string, std::map<std::string, double>> udqGroup;
+    bool hasWlm = false;                                               // WellMatcher built with a WListManager
+    std::map<std::string, Strs> wlists;                                // "*NAME" -> wells
 };
 
 static const Strs kValues = { "0", "1", "2", "3", "4", "0.5", "1.5", "10", "100", "0.25", "7", "1e3" };
@@ -148,8 +152,14 @@ static World makeWorld(vh::Rng& rng, bool positive) {
     World w;
     int nw = rng.range(1, 6), ng = rng.range(1, 3);
     static const Strs wn = { "P1", "P2", "PA", "I1", "I2", "PB3" };
+    static const Strs wn2 = { "P-1", "P.10", "OP_1", "I", "PROD1", "P11", "1P", "IP1" };
     static const Strs gn = { "G1", "G2", "FIELD" };
     for (int i = 0; i < nw; ++i) w.wells.push_back(wn[i]);
+    // names that tell patterns apart (a `?`, a `*` in the middle, a dot, a one-letter name) replace some of them
+    for (int i = 1; i < nw; ++i) if (rng.coin(1, 4)) {
+        std::string c = rng.pick(wn2);
+        if (std::find(w.wells.begin(), w.wells.end(), c) == w.wells.end()) w.wells[i] = c;
+    }
     std::sort(w.wells.begin(), w.wells.end());
     // random well order (WellMatcher keeps insertion order)
     for (size_t i = w.wells.size(); i > 1; --i) std::swap(w.wells[i - 1], w.wells[rng.below(i)]);
@@ -164,6 +174,19 @@ static World makeWorld(vh::Rng& rng, bool positive) {
     if (rng.coin(2, 3)) w.udqScalars["FUA"] = val();
     for (auto& well : w.wells) if (rng.coin()) w.udqWell["WUA"][well] = val();
     for (auto& g : w.groups) if (rng.coin()) w.udqGroup["GUA"][g] = val();
+    // well lists: most worlds have a WListManager (as Schedule::wellMatcher gives UDQConfig::eval)
+    w.hasWlm = !rng.coin(1, 5);
+    if (w.hasWlm) {
+        static const Strs ln = { "*L1", "*L2", "*PL", "*LIST10" };
+        int nl = rng.range(0, 3);
+        for (int i = 0; i < nl; ++i) {
+            Strs ws;
+            for (auto& well : w.wells) if (rng.coin()) ws.push_back(well);
+            for (size_t k = ws.size(); k > 1; --k) std::swap(ws[k - 1], ws[rng.below(k)]);   // list order != well order
+            if (rng.coin(1, 12)) ws.push_back("NOWELL");                                       // not in the well order
+            w.wlists[rng.pick(ln)] = ws;
+        }
+    }
     return w;
 }
 
@@ -172,12 +195,19 @@ struct Env {
     UDQFunctionTable udqft;
     SummaryState st;
     UDQState udq_state;
+    NameOrder order;
+    WListManager wlm;
     WellMatcher wm;
     std::unordered_map<std::string, UDT> tables;
     std::unique_ptr<UDQContext> ctx;
+    static WListManager makeWlm(const World& w) {
+        WListManager m;
+        for (auto& kv : w.wlists) m.newList(kv.first, kv.second);
+        return m;
+    }
     explicit Env(const World& w)
         : udqp(), udqft(udqp), st(TimeService::now(), udqp.undefinedValue()), udq_state(udqp.undefinedValue()),
-          wm(NameOrder(w.wells))
+          order(w.wells), wlm(makeWlm(w)), wm(w.hasWlm ? WellMatcher(&order, wlm) : WellMatcher(NameOrder(w.wells)))
     {
         for (auto& kv : w.fieldVals) st.update(kv.first, kv.second);
         for (auto& var : w.wellVars) for (auto& kv : var.second) st.update_well_var(kv.first, var.first, kv.second);
@@ -212,11 +242,20 @@ static std::string listHex(const Strs& v) {
     return out;
 }
 
-static std::string worldProto(const World& w, Env& env, const std::set<std::string>& patterns) {
+static std::string matcherProto(const World& w) {
+    std::string out;
+    if (w.hasWlm) out += " LM";
+    for (auto& kv : w.wlists) out += " L=" + hexOrDash(kv.first) + ":" + listHex(kv.second);
+    return out;
+}
+
+// the matcher's answers are NOT passed to the model any more: it gets the well order and the well
+// lists and matches by itself (Model/UdqMatch.lean)
+static std::string worldProto(const World& w, Env& env, const std::set<std::string>&) {
     std::string out = "E=" + vh::hexF64(env.udqp.cmpEpsilon());
     out += " W=" + listHex(env.ctx->wells());
     out += " G=" + listHex(env.ctx->groups());
-    for (auto& p : patterns) out += " M=" + hexOrDash(p) + ":" + listHex(env.ctx->wells(p));
+    out += matcherProto(w);
     if (!w.fieldVals.empty()) out += " F:" + entries(w.fieldVals);
     for (auto& var : w.wellVars) out += " WV:" + hexOrDash(var.first) + ":" + entries(var.second);
     for (auto& var : w.groupVars) out += " GV:" + hexOrDash(var.first) + ":" + entries(var.second);
@@ -288,7 +327,11 @@ struct Gen {
             switch (rng.below(6)) {
             case 0: case 1: return { rng.coin() ? "WOPR" : "WWPR" };
             case 2: return { "WUA" };
-            case 3: { std::string p = rng.pick(Strs{ "P*", "I*", "*", "P*1", "X*" }); patterns.insert(p); return { "WOPR", "'" + p + "'" }; }
+            case 3: {
+                std::string p = rng.pick(Strs{ "P*", "I*", "*", "P*1", "X*", "P?*", "*1", "?*", "I*?", "P*.*", "*L1", "*L*", "*PL", "*NOLIST", "P??*", "*?1", "**", "P1*", "\\*1", "\\P*", "P?", "P1" });
+                patterns.insert(p);
+                return { rng.coin(1, 8) ? "WGOR" : (rng.coin() ? "WOPR" : "WUA"), "'" + p + "'" };
+            }
             case 4: return { rng.pick(kValues) };
             default: return { "WWPR" };
             }
@@ -858,6 +901,108 @@ static std::string defineTokens(const Strs& items, bool& unbalanced, bool& other
     return out;
 }
 
+// ---------------------------------------------------------------------------------------------
+// well-name matching and sort ranks: generators shared by the correspondence and property mode
+
+// independent reference for fnmatch(p, s, 0) on `*` / `?` / literal (iterative, with backtracking
+// to the last star — not the recursion of the Lean model)
+static bool refGlob(const std::string& p, const std::string& s) {
+    size_t pi = 0, si = 0, star = std::string::npos, mark = 0;
+    while (si < s.size()) {
+        if (pi < p.size() && p[pi] == '*') { star = pi++; mark = si; }
+        else if (pi < p.size() && (p[pi] == '?' || p[pi] == s[si])) { ++pi; ++si; }
+        else if (star != std::string::npos) { pi = star + 1; si = ++mark; }
+        else return false;
+    }
+    while (pi < p.size() && p[pi] == '*') ++pi;
+    return pi == p.size();
+}
+
+static std::string randName(vh::Rng& rng) {
+    static const std::string alpha = "PPPIAB12310-._X";
+    std::string n;
+    int len = rng.range(rng.coin(1, 10) ? 0 : 1, 6);
+    for (int i = 0; i < len; ++i) n += alpha[rng.below(alpha.size())];
+    return n;
+}
+
+// a pattern: a name with characters replaced by / interleaved with `*` and `?`, or a short random one
+static std::string randPattern(vh::Rng& rng, const std::string& base) {
+    std::string p;
+    if (rng.coin(1, 5)) {
+        static const std::string alpha = "PI1*?*AB.";
+        int len = rng.range(0, 5);
+        for (int i = 0; i < len; ++i) p += alpha[rng.below(alpha.size())];
+        return p;
+    }
+    for (char c : base) {
+        switch (rng.below(8)) {
+        case 0: p += '*'; break;
+        case 1: p += '?'; break;
+        case 2: p += '*'; p += c; break;
+        case 3: break;
+        default: p += c;
+        }
+    }
+    if (rng.coin(1, 3)) p += '*';
+    return p;
+}
+
+static Strs randWellOrder(vh::Rng& rng, int lo, int hi) {
+    Strs v;
+    int n = rng.range(lo, hi);
+    while (static_cast<int>(v.size()) < n) {
+        std::string c = randName(rng);
+        if (!c.empty() && std::find(v.begin(), v.end(), c) == v.end()) v.push_back(c);
+    }
+    return v;
+}
+
+// values for a sort argument: few distinct values (ties), signed zeros, undefined elements
+static std::vector<std::optional<double>> randSortArg(vh::Rng& rng, int n) {
+    std::vector<std::optional<double>> v;
+    int distinct = rng.coin(1, 4) ? n + 5 : rng.range(1, 6);
+    int pu = rng.range(0, 3);
+    for (int i = 0; i < n; ++i) {
+        if (rng.coin(pu, 6)) { v.push_back(std::nullopt); continue; }
+        double x = static_cast<double>(rng.below(static_cast<uint64_t>(distinct))) * 0.5 - 1.0;
+        if (x == 0.0 && rng.coin()) x = -0.0;
+        // values that differ far below single precision, and huge ones: distinct for the comparison
+        if (rng.coin(1, 6)) x += static_cast<double>(rng.range(-3, 3)) * 1e-12;
+        else if (rng.coin(1, 30)) x *= 1e300;
+        v.push_back(x);
+    }
+    return v;
+}
+
+static UDQSet sortArgSet(const std::vector<std::optional<double>>& v) {
+    Strs names;
+    for (size_t i = 0; i < v.size(); ++i) names.push_back("W" + std::to_string(i));
+    UDQSet s = UDQSet::wells("WUX", names);
+    for (size_t i = 0; i < v.size(); ++i) if (v[i]) s.assign(i, *v[i]);
+    return s;
+}
+
+static std::string showSortArg(const std::vector<std::optional<double>>& v) {
+    if (v.empty()) return "-";
+    std::string out;
+    for (size_t i = 0; i < v.size(); ++i) { if (i) out += ","; out += v[i] ? vh::hexF64(*v[i]) : std::string("u"); }
+    return out;
+}
+
+// ranks of a SORTA / SORTD result as integers (`x` = not a whole number in 1..n: never expected)
+static std::string showRanks(const UDQSet& r) {
+    if (r.size() == 0) return "-";
+    std::string out;
+    for (size_t i = 0; i < r.size(); ++i) {
+        if (i) out += ",";
+        if (!r[i].defined()) { out += "u"; continue; }
+        double x = r[i].get();
+        if (x >= 1.0 && x <= 1e9 && x == std::floor(x)) out += std::to_string(static_cast<long>(x)); else out += "x";
+    }
+    return out;
+}
+
 int main(int argc, char** argv) {
     if (argc < 5) { std::cerr << "usage: udq corr|prop <seed> <tier> <outdir>\n"; return 2; }
     const std::string mode = argv[1];
@@ -953,6 +1098,70 @@ int main(int argc, char** argv) {
                     Gen g(rng, w, setKind);
                     Strs deck = g.expr(target == 'F' ? 'S' : (rng.coin(1, 5) ? 'S' : setKind), rng.range(1, 5));
                     emitEval(w, target, deck, g.patterns, g.libm, "eval");
+                }
+            }
+        }
+        // (3m) name matching inside the model: Opm::shmatch, WellMatcher::wells (wildcards, well lists,
+        //      leading backslash, plain names) and the sort ranks of SORTA / SORTD called directly
+        {
+            int nm = thorough ? 6000 : 1500;
+            for (int k = 0; k < nm; ++k) {
+                std::string name = randName(rng);
+                std::string pat = rng.coin(1, 6) ? name : randPattern(rng, rng.coin(1, 4) ? randName(rng) : name);
+                sink.emit("udq.match " + hexOrDash(pat) + " " + hexOrDash(name), shmatch(pat, name) ? "1" : "0");
+                sink.count(shmatch(pat, name) ? "match.yes" : "match.no");
+                if (pat.find('?') != std::string::npos) sink.count("match.with_question");
+            }
+            int nw = thorough ? 2400 : 600;
+            for (int k = 0; k < nw; ++k) {
+                World w;
+                w.wells = randWellOrder(rng, 0, 9);
+                w.hasWlm = !rng.coin(1, 4);
+                if (w.hasWlm) {
+                    int nl = rng.range(0, 4);
+                    for (int i = 0; i < nl; ++i) {
+                        Strs ws;
+                        for (auto& well : w.wells) if (rng.coin()) ws.push_back(well);
+                        for (size_t j = ws.size(); j > 1; --j) std::swap(ws[j - 1], ws[rng.below(j)]);
+                        if (rng.coin(1, 10)) ws.insert(ws.begin() + static_cast<long>(rng.below(ws.size() + 1)), "NOWELL");
+                        w.wlists["*" + rng.pick(Strs{ "L1", "L2", "PL", "LIST10", "P1", "A" })] = ws;
+                    }
+                }
+                NameOrder order(w.wells);
+                WListManager wlm = Env::makeWlm(w);
+                WellMatcher wm = w.hasWlm ? WellMatcher(&order, wlm) : WellMatcher(NameOrder(w.wells));
+                for (int q = 0; q < 4; ++q) {
+                    std::string pat;
+                    switch (rng.below(6)) {
+                    case 0: pat = w.wells.empty() ? "P1" : rng.pick(w.wells); break;                       // a plain name
+                    case 1: pat = "*" + rng.pick(Strs{ "L1", "L2", "PL", "L*", "*", "?1", "P*", "NOLIST", "L?", "" }); break;   // well lists
+                    case 2: pat = "\\" + randPattern(rng, w.wells.empty() ? "P1" : rng.pick(w.wells)); break;  // '\*P*'
+                    default: pat = randPattern(rng, w.wells.empty() ? "P1" : rng.pick(w.wells));
+                    }
+                    std::string ans;
+                    try { ans = "ok " + listHex(wm.wells(pat)); } catch (const std::exception&) { ans = "err"; }
+                    sink.emit("udq.wells W=" + listHex(wm.wells()) + matcherProto(w) + " | " + hexOrDash(pat), ans);
+                    sink.count(ans == "err" ? "wells.err" : ans == "ok -" ? "wells.none" : "wells.some");
+                    if (!pat.empty() && pat[0] == '*' && pat.size() > 1) sink.count("wells.wlist_pattern");
+                }
+            }
+            UDQParams udqp;
+            UDQFunctionTable udqft(udqp);
+            int ns = thorough ? 3000 : 800;
+            for (int k = 0; k < ns; ++k) {
+                bool big = rng.coin(1, 3);
+                auto arg = randSortArg(rng, big ? rng.range(17, 90) : rng.range(0, 16));
+                UDQSet set = sortArgSet(arg);
+                size_t ndef = 0;
+                for (auto& x : arg) if (x) ++ndef;
+                for (const char* fn : { "SORTA", "SORTD" }) {
+                    const auto& f = dynamic_cast<const UDQUnaryElementalFunction&>(udqft.get(fn));
+                    std::string ranks = showRanks(f.eval(set));
+                    std::string d(1, fn[4]);
+                    if (ndef <= 16) { sink.emit("udq.sort " + d + " " + showSortArg(arg), ranks); sink.count("sort.exact"); }
+                    // whatever the size: the answer of the real code against the specification
+                    sink.emit("udq.sortchk " + d + " " + showSortArg(arg) + " " + ranks, "ok");
+                    sink.count(ndef <= 16 ? "sortchk.small" : "sortchk.large");
                 }
             }
         }
@@ -1165,7 +1374,9 @@ int main(int argc, char** argv) {
                 UDQParams udqp;
                 UDQConfig cfg(udqp);
                 UDQState udq_state(udqp.undefinedValue());
-                WellMatcher wm{ NameOrder(w0.wells) };
+                NameOrder order0(w0.wells);
+                WListManager wlm0 = Env::makeWlm(w0);
+                WellMatcher wm = w0.hasWlm ? WellMatcher(&order0, wlm0) : WellMatcher(NameOrder(w0.wells));
                 KeywordLocation loc;
                 struct QD { std::string key; char target; };
                 std::vector<QD> order;
@@ -1236,7 +1447,7 @@ int main(int argc, char** argv) {
                         UDQContext ctx(udqft, wm, tables, UDQContext::MatcherFactories{}, st, udq_state);
                         groups = ctx.groups();
                         op += " ; S E=" + vh::hexF64(udqp.cmpEpsilon()) + " W=" + listHex(ctx.wells()) + " G=" + listHex(groups);
-                        for (auto& p : patterns) op += " M=" + hexOrDash(p) + ":" + listHex(ctx.wells(p));
+                        op += matcherProto(w0);
                     }
                     if (!w.fieldVals.empty()) op += " F:" + entries(w.fieldVals);
                     for (auto& var : w.wellVars) op += " WV:" + hexOrDash(var.first) + ":" + entries(var.second);
@@ -1544,6 +1755,130 @@ int main(int argc, char** argv) {
                             else failU("union-law.associative", define({ "(", A, op, B, ")", op, C }) + " : exception | " + uc.show());
                         }
                     }
+                }
+            }
+        }
+        // (m) well-name matching, on the real code alone
+        {
+            auto check = [&](bool okk, const std::string& key, const std::string& detail) {
+                if (okk) { log.ok(); ++stats[key]; return; }
+                ++stats[key + ".instances"];
+                if (stats[key + ".instances"] <= 3) log.fail(key, detail);
+            };
+            int nm = thorough ? 8000 : 2000;
+            for (int k = 0; k < nm; ++k) {
+                std::string name = randName(rng), other = rng.coin() ? randName(rng) : name + rng.pick(Strs{ "1", "P", "", "." });
+                std::string pat = randPattern(rng, rng.coin(1, 4) ? other : name);
+                // the documented meaning of `*` and `?`
+                check(shmatch(pat, name) == refGlob(pat, name), "match-ref", "pattern='" + pat + "' name='" + name + "' impl=" + (shmatch(pat, name) ? "match" : "no match"));
+                // a pattern without `*` / `?` matches exactly itself
+                check(shmatch(name, other) == (name == other), "match-literal", "pattern='" + name + "' name='" + other + "'");
+                check(shmatch("*", name) && shmatch(name + "*", name) && shmatch("*" + name, name) && shmatch(std::string(name.size(), '?'), name)
+                      && !shmatch(std::string(name.size() + 1, '?'), name), "match-star", "name='" + name + "'");
+            }
+            int nw = thorough ? 1600 : 400;
+            for (int k = 0; k < nw; ++k) {
+                World w = makeWorld(rng, false);
+                if (rng.coin()) { w.wells = randWellOrder(rng, 1, 12); w.wlists.clear(); }
+                w.wellVars.clear(); w.udqWell.clear();
+                for (auto& well : w.wells) if (!rng.coin(1, 4)) w.wellVars["WOPR"][well] = randVal(rng);
+                if (w.wellVars["WOPR"].empty()) w.wellVars["WOPR"][w.wells[0]] = 1.0;
+                for (auto& kv : w.wlists) kv.second.erase(std::remove(kv.second.begin(), kv.second.end(), std::string("NOWELL")), kv.second.end());
+                World w2 = w;     // the same wells entered in another order
+                for (size_t i = w2.wells.size(); i > 1; --i) std::swap(w2.wells[i - 1], w2.wells[rng.below(i)]);
+                Env env(w), env2(w2);
+                for (int q = 0; q < 4; ++q) {
+                    bool listPat = w.hasWlm && !w.wlists.empty() && rng.coin(1, 4);
+                    std::string pat = listPat ? rng.pick(Strs{ "*L1", "*L2", "*PL", "*L*", "*LIST10", "*?L", "*L?" }) : randPattern(rng, rng.pick(w.wells));
+                    if (pat.find('*') == std::string::npos) pat += "*";
+                    bool escaped = !listPat && rng.coin(1, 5);                              // '\*P*': the backslash is dropped
+                    if (!listPat && !escaped && pat[0] == '*' && pat.size() > 1) pat = "?" + pat;      // a leading `*` means a well list
+                    const std::string body = pat;
+                    if (escaped) pat = "\\" + pat;
+                    std::set<std::string> expect;
+                    if (listPat) {
+                        for (auto& kv : w.wlists)
+                            if (kv.first == pat || (w.wlists.count(pat) == 0 && refGlob(pat.substr(1), kv.first.substr(1))))
+                                expect.insert(kv.second.begin(), kv.second.end());
+                    } else for (auto& well : w.wells) if (refGlob(body, well)) expect.insert(well);
+                    Strs got = env.wm.wells(pat), got2 = env2.wm.wells(pat);
+                    Strs want, want2;
+                    for (auto& well : w.wells) if (expect.count(well)) want.push_back(well);
+                    for (auto& well : w2.wells) if (expect.count(well)) want2.push_back(well);
+                    check(got == want, "wells-ref", "wells=" + joinStrs(w.wells) + " pattern='" + pat + "' impl=" + joinStrs(got) + " expected=" + joinStrs(want));
+                    check(got2 == want2, "wells-order-independent", "wells=" + joinStrs(w2.wells) + " pattern='" + pat + "' impl=" + joinStrs(got2) + " expected=" + joinStrs(want2));
+                    // the set `WOPR 'pattern'`: one entry per well of the schedule, in schedule order, defined
+                    // exactly for the matching wells that have a value
+                    for (int side = 0; side < 2; ++side) {
+                        const World& ww = side ? w2 : w;
+                        auto res = realEval({ "WOPR", "'" + pat + "'" }, 'W', side ? env2 : env);
+                        std::string in = "wells=" + joinStrs(ww.wells) + " DEFINE WUX WOPR '" + pat + "'";
+                        if (!res) { check(false, "wellset-ref", in + " threw"); continue; }
+                        bool okk = res->size() == ww.wells.size();
+                        std::string bad;
+                        for (size_t i = 0; okk && i < res->size(); ++i) {
+                            const auto& e = (*res)[i];
+                            auto it = w.wellVars.at("WOPR").find(ww.wells[i]);
+                            bool def = expect.count(ww.wells[i]) && it != w.wellVars.at("WOPR").end();
+                            if (e.wgname() != ww.wells[i] || e.defined() != def || (def && e.get() != it->second)) { okk = false; bad = ww.wells[i]; }
+                        }
+                        check(okk, "wellset-ref", in + " : element '" + bad + "' (size " + std::to_string(res->size()) + ") expected " + (expect.count(bad) ? "matching" : "not matching"));
+                    }
+                }
+            }
+        }
+        // (s) SORTA / SORTD: ranks are a permutation of 1..n over the defined elements that respects the
+        //     strict order; the tie order is whatever std::sort does, but the same every time
+        {
+            auto check = [&](bool okk, const std::string& key, const std::string& detail) {
+                if (okk) { log.ok(); ++stats[key]; return; }
+                ++stats[key + ".instances"];
+                if (stats[key + ".instances"] <= 3) log.fail(key, detail);
+            };
+            UDQParams udqp;
+            UDQFunctionTable udqft(udqp);
+            int ns = thorough ? 4000 : 1000;
+            for (int k = 0; k < ns; ++k) {
+                bool viaDefine = rng.coin(1, 4);
+                auto arg = randSortArg(rng, rng.coin(1, 3) ? rng.range(17, 120) : rng.range(1, 16));
+                size_t n = 0;
+                for (auto& x : arg) if (x) ++n;
+                World w;
+                if (viaDefine) {
+                    for (size_t i = 0; i < arg.size(); ++i) { w.wells.push_back("W" + std::to_string(i)); if (arg[i]) w.wellVars["WOPR"][w.wells.back()] = *arg[i]; }
+                    if (n == 0) { w.wellVars["WOPR"][w.wells[0]] = 1.0; arg[0] = 1.0; n = 1; }
+                    w.groups = { "G1" };
+                }
+                for (const char* fn : { "SORTA", "SORTD" }) {
+                    bool asc = fn[4] == 'A';
+                    std::optional<UDQSet> r1, r2;
+                    if (viaDefine) { Env env(w); r1 = realEval({ fn, "(", "WOPR", ")" }, 'W', env); r2 = realEval({ fn, "(", "WOPR", ")" }, 'W', env); }
+                    else {
+                        const auto& f = dynamic_cast<const UDQUnaryElementalFunction&>(udqft.get(fn));
+                        r1 = f.eval(sortArgSet(arg)); r2 = f.eval(sortArgSet(arg));
+                    }
+                    std::string in = std::string(fn) + (viaDefine ? "(WOPR) " : " ") + "values=";
+                    for (auto& x : arg) in += (x ? g17(*x) : std::string("undef")) + " ";
+                    if (!r1 || !r2 || r1->size() != arg.size()) { check(false, "sort-rank", in + "threw / wrong size"); continue; }
+                    in += "ranks=" + showRanks(*r1);
+                    std::vector<int> seen(n + 1, 0);
+                    bool perm = true, order = true, same = true;
+                    for (size_t i = 0; i < arg.size(); ++i) {
+                        const auto& e = (*r1)[i];
+                        if (e.defined() != arg[i].has_value()) { perm = false; continue; }
+                        if (e.defined() != (*r2)[i].defined() || (e.defined() && e.get() != (*r2)[i].get())) same = false;
+                        if (!e.defined()) continue;
+                        double x = e.get();
+                        if (!(x >= 1.0 && x <= static_cast<double>(n) && x == std::floor(x)) || seen[static_cast<size_t>(x)]++) perm = false;
+                    }
+                    for (size_t i = 0; perm && i < arg.size(); ++i) for (size_t j = 0; j < arg.size(); ++j) {
+                        if (!arg[i] || !arg[j]) continue;
+                        bool before = asc ? *arg[i] < *arg[j] : *arg[i] > *arg[j];
+                        if (before && !((*r1)[i].get() < (*r1)[j].get())) order = false;
+                    }
+                    check(perm, "sort-rank.permutation", in);
+                    check(!perm || order, "sort-rank.order", in);
+                    check(same, "sort-rank.deterministic", in);
                 }
             }
         }
